@@ -117,6 +117,15 @@ def _outcome(ctx):
     return body, ("raise", cls), exc
 
 
+def _bound(kind, flavour):
+    """how long a run may take before it is 'does not end': correct runs take < 0.5 s.  The known finding F14
+    (asyncio payload raising CancelledError) is a run that never ends, on every such path: a shorter bound there
+    keeps the price of re-confirming it on every run low (a run mistaken for a hang would still match F14 only)"""
+    if kind[0] == "raise" and kind[1] is asyncio.CancelledError and flavour == "asyncio":
+        return 4.0
+    return rt.BOUND
+
+
 def _judge(ctx, out, kind, obj, tag="", flavour=None):
     """the obligations on how the blocking call ended"""
     what, detail = kind
@@ -174,7 +183,7 @@ def meta_queued(ctx, flavour, bystanders=None):
         meta.register_payload(w.bystander(f, beats), flavour=rt.FLAVOURS[f])
     meta.register_payload(rt.make_payload(flavour, body), flavour=rt.FLAVOURS[flavour])
     try:
-        out = rt.run_meta(meta)
+        out = rt.run_meta(meta, bound=_bound(kind, flavour))
     finally:
         stop.set()
     ctx.reach()
@@ -244,7 +253,7 @@ def accept_scenario(ctx, flavour, how, via=None, bystanders=None):
                 w.runner.adopt(failing, flavour=F)
             else:
                 svc = make_service()
-        out = w.join()
+        out = w.join(bound=_bound(kind, flavour))
     finally:
         w.cleanup()
     ctx.reach()
